@@ -33,8 +33,10 @@ PROPS = {
     trusted=[FLOAT_TB, 'the recording Environment of the harness (harness/src/env.rs) logs exactly the variable() and call() invocations'],
  ),
  'C12': dict(
-    modules=['SlacProps.C12'],
-    streams=[dict(name='json', n=n(60000, 2000000), oracle='none', laws=['json_same'])],
+    modules=['SlacProps.C12', 'SlacProps.C12Text'],
+    streams=[dict(name='json', n=n(60000, 2000000), oracle='none', laws=['json_same']),
+             dict(name='deep:json', n=n(1000, 50000), oracle='none', laws=['json_same']),
+             dict(name='vdeep:json', n=n(400, 20000), oracle='none', laws=['json_same'])],
     rule='json: source-expressible, optimizer-shaped and arbitrary ill-formed trees (depth<=3) with literals from the boundary pool '
          '(random bit patterns, subnormals, -0, 2^53+1, 1e300, NaN, infinities) and Unicode string pools; the canonical JSON value is compared with the model, '
          'and both round-trip routes (serde_json::Value, text) are checked bit-exactly on the real crate. non-trivial = tree has an operator/call/array node',
@@ -48,6 +50,7 @@ PROPS = {
         dict(name='rt', n=n(60000, 2000000), view='okfull', oracle='none', laws=['same']),
         dict(name='rr', n=n(40000, 1000000), view='okfull', oracle='none', laws=['same']),
         dict(name='compile', n=n(40000, 1000000), view='okfull', oracle='none'),
+        dict(name='scanchars', n=n(0, 1), view='tmrange', oracle='none', laws=['scanrange'], expand='expand-scanrange', case_timeout=120.0),
     ],
     rule='parsekinds: ALL sequences of <=4 (quick) / <=5 (thorough) tokens over the 23 token kinds; parse: random token lists <=40; '
          'rt: random source-expressible trees (depth<=4) rendered minimal / fully parenthesised / with random extra parentheses, compiled by the crate and compared bit-exactly; '
@@ -61,8 +64,10 @@ PROPS = {
         dict(name='scan', n=n(60000, 2000000), view='okfull', oracle='none'),
         dict(name='lay', n=n(40000, 1000000), view='full', oracle='none', laws=['same']),
         dict(name='num', n=n(40000, 1000000), oracle='none'),
+        dict(name='scanchars', n=n(0, 1), view='tmrange', oracle='none', laws=['scanrange'], expand='expand-scanrange', case_timeout=120.0),
     ],
-    rule='scanfrag: ALL sequences of <=3 (quick) / <=4 (thorough) fragments from a 32-fragment alphabet (digits, dot, letters, keywords in mixed case, quotes, braces, //, newline, operators, non-ASCII letter); '
+    rule='scanchars: EVERY Unicode scalar value (thorough; quick: the blocks U+0000-33FF, A000-ABFF, F900-10FFF, 1D000-1EFFF, E0000-E01FF) tokenized alone, next to a letter, a digit, `1.`, in a string, and substituted at every position of every keyword in lower and upper case (59 texts per code point), compared by digest per 256 code points and expanded to the single differing text on a mismatch; '
+         'scanfrag: ALL sequences of <=3 (quick) / <=4 (thorough) fragments from a 32-fragment alphabet (digits, dot, letters, keywords in mixed case, quotes, braces, //, newline, operators, non-ASCII letter); '
          'scan: random texts (rendered trees with random layout, fragment soup, decimal renderings of random doubles, quoted Unicode strings, truncations, mutations, random code points); '
          'lay: token sequence rendered twice with different whitespace/comments/keyword case, both tokenized by the crate and compared bit-exactly; num: str::parse::<f64> against the exact decimal->double model',
     trusted=[FLOAT_TB, 'Unicode tables dumped from Rust std (SlacModel/UnicodeTables.lean); theorems hold for every CharClass satisfying AsciiOk'],
